@@ -2,7 +2,9 @@
 PDF page boxes: mirror of the per-page part of `generate_pdf` (weasyprint/pdf/__init__.py) that
 computes `/MediaBox`, `/TrimBox`, `/BleedBox`, and of `Page.__init__` (`width`, `height`, `bleed`,
 weasyprint/document.py) with the computed value of `bleed-*` (`computed_values.bleed`).
-`scale = zoom * 0.75`; the bleed used for TrimBox / BleedBox is `bleed * scale` (repaired F15).
+`scale = zoom * 0.75`; the bleed used for TrimBox / BleedBox is `bleed * scale` (repaired F15); the
+BleedBox lies at most `10 * zoom` points outside the TrimBox (the cap is scaled with zoom, repaired
+by d924a7c: before, the cap was the constant 10).
 No Mathlib, no Std: linked into the compiled driver.
 -/
 import WpModel.Model.Wire
@@ -32,6 +34,9 @@ structure Rect where
   y1 : Rat
   deriving Repr, DecidableEq, BEq, Inhabited
 
+/-- Coordinate-wise scaling of a PDF rectangle (used to state that zoom is a uniform scale). -/
+def Rect.scale (k : Rat) (r : Rect) : Rect := ⟨k * r.x0, k * r.y0, k * r.x1, k * r.y1⟩
+
 structure Boxes where
   media : Rect
   trim : Rect
@@ -60,6 +65,7 @@ def pageBoxes (w h : Rat) (b : Bleed) (zoom : Rat) : Boxes :=
   let trimBottom := bottom - bb
   { media := ⟨left, top, right, bottom⟩
     trim := ⟨trimLeft, trimTop, trimRight, trimBottom⟩
-    bleed := ⟨trimLeft - min 10 bl, trimTop - min 10 bt, trimRight + min 10 br, trimBottom + min 10 bb⟩ }
+    bleed := ⟨trimLeft - min (10 * zoom) bl, trimTop - min (10 * zoom) bt,
+              trimRight + min (10 * zoom) br, trimBottom + min (10 * zoom) bb⟩ }
 
 end Wp.PdfBoxes
